@@ -10,7 +10,6 @@ open C18
 def inventory : List Entry := [
   ⟨"BSpline::operator()::Bum", .localStatic, true, .onceInit, []⟩,
   ⟨"MinimizeOptions::strat", .pointerMember, false, .perObject, ["minimize"]⟩,
-  ⟨"SubManifold::m_calc", .mutableMember, false, .writtenByConst, ["SubManifold::rplus", "SubManifold::rminus"]⟩,
   ⟨"ad_sparse_pattern", .varTemplate, false, .readOnlyAfterInit, []⟩,
   ⟨"d2_exp_sparse_pattern", .varTemplate, false, .readOnlyAfterInit, []⟩,
   ⟨"d_exp_sparse_pattern", .varTemplate, false, .readOnlyAfterInit, []⟩,
